@@ -205,6 +205,21 @@ def gen_requests(r, tier):
     return ops
 
 
+def gen_loopmono(r, tier):
+    """the direct control algorithm (with and without maxPwmChangePerCycle) from ONE state: for a fixed current value the
+    next request is non-decreasing in the curve value (seed C07i: a rate-limited step 'spread evenly' shrank when the
+    distance crossed a multiple of the limit)"""
+    ops = []
+    for _ in range(12 if tier == "quick" else 200):
+        m = r.pick(["-", 1, 2, 3, 7, 10, 16, 50, 100, 255])
+        ops += ["#case loopmono", f"loop.new loop=direct m={m}"]
+        for cur in [r.range(0, 255) for _ in range(4)]:
+            ops.append(f"#current {cur}")
+            for t in range(0, 256, 1 if tier != "quick" else r.pick([1, 1, 2])):
+                ops.append(f"loop.cycle target={t} current={cur} now=1000")
+    return ops
+
+
 class C07(Prop):
     id = "C07"
     lean_modules = ["Fan2go.Props.C07"]
@@ -217,7 +232,7 @@ class C07(Prop):
                    "(the float32 cast in the interpolation can lift a value over x.5 just below a knot)"]
     streams = [Stream("sweep", gen_sweeps, parallel=8), Stream("shuffle", gen_shuffle, parallel=8),
                Stream("pairdrop", lambda r, tier: streams.gen_pairdrop(r, 30 if tier == "quick" else 1500), parallel=8),
-               Stream("request", gen_requests, parallel=8)]
+               Stream("request", gen_requests, parallel=8), Stream("loopmono", gen_loopmono, parallel=8)]
 
     def search_streams(self):
         return [(self.streams[0], gen_sweeps_focus)]
@@ -225,6 +240,23 @@ class C07(Prop):
     def oracle(self, name, ops, go):
         out = []
         for cops, cgo in cases(ops, go):
+            if name == "loopmono":
+                prev = None
+                for i, (op, g) in enumerate(zip(cops, cgo)):
+                    if op.startswith("#current"):
+                        prev = None
+                    if not op.startswith("loop.cycle"):
+                        continue
+                    try:
+                        v = int(g.split()[0][1:]) if g.startswith("i") else int(kv(g).get("out", g))
+                    except ValueError:
+                        continue
+                    if prev is not None and v < prev[1]:
+                        out.append(viol(f"control algorithm, same current value: target {prev[0]} gives {prev[1]}, the higher target {kv(op)['target']} gives {v}",
+                                        cops, cgo, upto=i))
+                        break
+                    prev = (kv(op)["target"], v)
+                continue
             if name == "request":
                 last_t, last_w = None, None
                 start = next((k for k, o in enumerate(cops) if o.startswith("#ascend")), 1) + 1
